@@ -1,5 +1,5 @@
 (* Run_C06.v — entry points evaluated by the correspondence harness for C06. No proofs. *)
-From DV Require Export Digest DigestLayouts.
+From DV Require Export Digest DigestLayouts Stored.
 Local Open Scope Z_scope.
 
 Inductive c06case :=
@@ -12,7 +12,17 @@ Inductive c06case :=
    forged row r) and uses the answer as the signature of r, a row the instance's user never wrote *)
 | COracle (k : N) (r : row) (jobj : bool) (c : option (list byte))
 (* core::str::from_utf8 on raw bytes (validates the UTF-8 part of well-formedness) *)
-| CUtf8 (b : list byte).
+| CUtf8 (b : list byte)
+(* sys.Peer rows written through the real add_peer_nodes on real instances (rows: the correctly signed
+   rows of the scenario, the instances' own rows first; init: what every instance holds at the start;
+   ops: (instance, row)); observation = per instance the stored rows column by column, what
+   get_peer_node serves for the keys 0..nkeys-1, and finally how many stored / served rows the real
+   verify() refuses *)
+| CPeerStore (rows : list prow) (init : list (list nat)) (ops : list (nat * nat)) (nkeys : nat)
+(* a history of local mutations, deletions, synchronisations and peer rows on two real instances
+   (ops: its operation codes, for the record); observation = how many rows of _node, _edge, the two
+   deletion logs and the served peer rows the real verify() refuses *)
+| CStoredAll (ops : list N).
 
 Definition layout_of (k : N) : option layout := nth_error layouts (N.to_nat k).
 Definition zbytes (b : list byte) : list Z := map (fun x => Z.of_N (bn x)) b.
@@ -33,6 +43,11 @@ Definition sign_accept (l : layout) (r : row) (jobj : bool) : bool :=
 
 Definition challenge_of (Hf : list byte -> list byte) (l : layout) (r : row) (c : option (list byte)) : list byte :=
   match c with Some b => b | None => Hf (enc l r) end.
+
+Definition dump_srow (x : srow) : list Z := [zn (s_id x); zn (s_key x); s_mdate x; zn (s_json x); Z.of_nat (s_sig x)].
+(* every stored row, and every row get_peer_node serves *)
+Definition served_rows (stores : list (list srow)) (keys : list N) : list srow :=
+  concat stores ++ flat_map (fun st => flat_map (fun k => match served st k with Some x => [x] | None => [] end) keys) stores.
 
 (* what the model says the implementation observes; Hf is the hash (blake3 for the runs) *)
 Definition run_C06_gen (Hf : list byte -> list byte) (c : c06case) : list Z :=
@@ -56,6 +71,13 @@ Definition run_C06_gen (Hf : list byte -> list byte) (c : c06case) : list Z :=
       | None => []
       end
   | CUtf8 b => [zb (utf8_valid b)]
+  | CPeerStore rows init ops nkeys =>
+      let stores := peer_run rows init ops in
+      let keys := map N.of_nat (seq 0 nkeys) in
+      flat_map (fun st => Z.of_nat (length st) :: flat_map dump_srow (sort_by_id st)
+                          ++ map (fun k => zb (match served st k with Some _ => true | None => false end)) keys) stores
+      ++ [Z.of_nat (length (filter (fun x => negb (verifies rows x)) (served_rows stores keys)))]
+  | CStoredAll _ => [0]     (* every write path stores whole verified rows: nothing stored fails verify() *)
   end.
 Definition run_C06 : c06case -> list Z := run_C06_gen blake3.
 
@@ -78,6 +100,8 @@ Definition spec_C06 (c : c06case) (obs : list Z) : bool :=
       (* nothing a peer can ask yields a signature that verifies as a row the user did not author *)
       match obs with [v] => Z.eqb v 0 | _ => false end
   | CUtf8 _ => match obs with [_] => true | _ => false end
+  (* every row that can be synchronised verifies exactly as stored / served *)
+  | CPeerStore _ _ _ _ | CStoredAll _ => match rev obs with f :: _ => Z.eqb f 0 | [] => false end
   end.
 
 (* known-finding classes (known_findings.d/C06.json):
@@ -118,6 +142,7 @@ Definition case_ok (c : c06case) : bool :=
   | CPair k1 _ _ k2 _ _ => ok k1 && ok k2
   | COracle k _ _ _ => ok k
   | CUtf8 _ => true
+  | CPeerStore _ _ _ _ | CStoredAll _ => true
   end.
 
 Definition eval_C06 (c : c06case) (obs : list Z) : list Z :=
